@@ -309,6 +309,13 @@ func c15Gen(t *rapid.T, rec *evid.Recorder) c15Case {
 	}
 	c.Src2 = render(1)
 	c.Plain = render(2)
+	if r.Intn(4, "crlf") == 0 {
+		// a file with Windows line ends (line and column of every token stay the same)
+		c.Src = strings.ReplaceAll(c.Src, "\n", "\r\n")
+		c.Src2 = strings.ReplaceAll(c.Src2, "\n", "\r\n")
+		c.Plain = strings.ReplaceAll(c.Plain, "\n", "\r\n")
+		rec.Class("layout:crlf")
+	}
 	return c
 }
 
